@@ -14,3 +14,37 @@ CLAIMED = {
         technique="Kani/CBMC symbolic execution of the real config accessors and model-trait impls over arbitrary account images (program and SDK side)",
         design="C16"),
 }
+
+_E2 = ("symbolic execution of the compiler's MIR of the real functions into SMT-LIB2 over mathematical integers with explicit machine ranges, "
+       "decided by z3 (cvc5 cross-check in the thorough tier), counterexamples replayed natively")
+
+CLAIMED.update({
+    "C31": dict(
+        text=BOUNDED + "program side, full u128 width: the MIR of the real Store::order_fee_discount_factor, GtState::order_fee_discount_factor and Factors::get "
+             "(with gmsol-model's apply_factor / checked_mul_div inlined across the crate boundary) is executed on an arbitrary store image restricted to the fields read "
+             "(gt.max_rank <= 15, the 16 rank factors <= 100%, the referred-user factor <= 100%), every u8 rank and both referral states: Err exactly when rank > max_rank, "
+             "unreferred = the rank factor, referred = B + floor(A*(UNIT-B)/UNIT), always within [0, 100%] and >= both A and B; no panic (array index, overflow) is reachable.",
+        note="Assumes the representation invariant gt.max_rank <= MAX_RANK established by GtState::init and factors <= 100% (validated by set_order_fee_discount_factors; the property's quantifier). "
+             "Anchor error construction is opaque. The SDK copy (crates/programs/src/utils/store.rs) and the program/SDK equality are NOT decided. Trusted: rustc's MIR dump, the translator in /verif/mir2smt, z3/cvc5, the callee models listed in the evidence.",
+        technique=_E2, design="C31", engine="mir2smt"),
+    "C32": dict(
+        text=BOUNDED + "helpers only. Full width (MIR->SMT): compute_builder_fee_amount, clamp_builder_fee_amount and charge_builder_fee_on_collateral_increment for every u128 size, factor, "
+             "min/max price and every u64 increment: factor 0 gives Ok(0) whatever the price; otherwise Ok(fee) iff fee = ceil(floor(size*factor/10^20) / p_min) with no overflowing intermediate, "
+             "Err exactly for p_min = 0 or overflow; clamp = min(fee, available); charge returns (after, fee) with after + fee = increment, Err exactly when the fee cannot be computed, exceeds u64 or exceeds the increment; "
+             "no panic is reachable. Kani: Order::record_builder_fee on an arbitrary order image accumulates exactly, rejects overflow without change, and changes no other word of the account.",
+        note="Not decided: estimate_builder_fee_for_collateral_withdrawal (its Kani harness does not finish and is kept experimental), the decrease-path bound 'recorded fee <= final output amount' and "
+             "SettleBuilderFee::invoke (token CPIs, instruction layer). Trusted: rustc's MIR dump, the translator in /verif/mir2smt, z3/cvc5, kani-compiler + CBMC.",
+        technique=_E2 + "; Kani/CBMC for the recorded-amount state transition", design="C32", engine="mir2smt+kani"),
+    "C20": dict(
+        text=BOUNDED + "state level only: on an arbitrary permission image, marking a market-config key (every u16 key code) or flag as updatable / not updatable succeeds exactly when it changes the mark, "
+             "is read back for that key, and never changes the mark of any other key or flag.",
+        note="The handlers (update_market_config, update_market_config_flag, update_market_config_with_buffer: role check, buffer expiry, 'one non-updatable entry rejects the whole buffer') "
+             "run behind Anchor contexts and are NOT decided. Trusted: kani-compiler + CBMC.",
+        technique="Kani/CBMC symbolic execution of the real MarketConfigPermissions accessors over arbitrary images", design="C20"),
+    "C33": dict(
+        text=BOUNDED + "state level: on arbitrary user / referral-code account images, Referral::set_referrer succeeds only when no referrer is set and the referrer's owner is non-default, records exactly that owner, "
+             "bumps only the referrer's referee count, and any second attempt fails without changing either account; Referral::set_code sets only an unset code; proposing a code transfer never changes the code owner "
+             "or any user's code; completing it succeeds only for the proposed next owner who has no code, moves the code to exactly that user and leaves the sender without it; rejected calls change nothing.",
+        note="The self-referral and mutual-referral checks are Anchor account constraints / handler code (instructions/user.rs) and are NOT decided. Trusted: kani-compiler + CBMC.",
+        technique="Kani/CBMC symbolic execution of the real referral state transitions over arbitrary account images", design="C33"),
+})
